@@ -70,8 +70,15 @@ def closed_form(case):
     P, Q = oracles.halfspace_closed_form(q0hat, KX, KY, const, z[lv] - z[0], bg=bg)
     m = inside & (ok | ((KX == 0) & (KY == 0)))
     nm = int(m.sum())
+    allm = ok | ((KX == 0) & (KY == 0))
+    u_, v_, Kx_, Ky_, Kz_ = const
+    mu_abs = np.abs(np.sqrt((Kx_ * KX**2 + Ky_ * KY**2 + 1j * (u_ * KX + v_ * KY)) / Kz_))
+    src = float(np.max(np.abs(q0hat)))
+    floor = {"flx": src, "conc": src / (Kz_ * float(mu_abs.max()))}
     for name, A, B in (("flx", F, Q), ("conc", C, P)):
-        scale = max(float(np.max(np.abs(B[:, m]))), 1e-300)
+        # scale: never below the source spectrum's own magnitude (a smooth source may have no content inside the compared set,
+        # e.g. only on the Nyquist column of a 4-cell axis: then everything compared is rounding noise)
+        scale = max(float(np.max(np.abs(B[:, allm]))), floor[name], 1e-300)
         e = float(np.max(np.abs((A - B)[:, m]))) / scale
         resid[f"closed_form_{name}"] = e
         if e > 1e-9:
@@ -155,7 +162,8 @@ def order(case):
             viol.append({"what": "numerical_mode_not_third_order", "errors": errs, "ratios": (r1, r2), "grid": gridk, "n0": n0, "footprint": fp,
                          "meas_pt": mp, "resolved": res0, "setup": desc})
     # a misregistration between the two branches is an O(1) difference, whatever the order
-    if errs[0] > 0.2:
+    # (a large coarse-grid error that converges away is not a misregistration)
+    if errs[2] > 0.02 and errs[2] > errs[0] / 3:
         viol.append({"what": "numeric_and_analytic_branch_disagree", "errors": errs, "grid": gridk, "n0": n0, "footprint": fp, "meas_pt": mp,
                      "resolved": res0, "setup": desc})
     b = {f"b:grid:{gridk}": 1, f"b:halo:{St['halo_class']}": 1, f"b:modes:{St['mode_class']}": 1, "b:footprint" if fp else "b:dispersion": 1,
